@@ -12,6 +12,7 @@
 #include <map>
 #include <set>
 #include <unistd.h>
+#include <sys/resource.h>
 #include <atomic>
 #include <thread>
 
@@ -25,6 +26,10 @@ std::vector<FrameBase*>& registry() { static std::vector<FrameBase*> r; return r
 namespace ctpg_verif {
 void bounds_violation(const char* what, std::size_t idx, std::size_t cap) { eg::g_bounds_hits++; throw eg::BoundsHit{what, idx, cap}; }
 }
+
+// The parser constructor keeps its whole state_analyzer (tens of MB for a JSON-sized grammar) in a local variable; frames are
+// constructed on the main thread during static initialisation, so raise the stack limit before any of them runs.
+__attribute__((constructor(101))) static void raise_stack_limit() { struct rlimit rl; if (getrlimit(RLIMIT_STACK, &rl) == 0) { rlim_t want = rlim_t(2048) << 20; if (rl.rlim_max != RLIM_INFINITY && want > rl.rlim_max) want = rl.rlim_max; if (rl.rlim_cur == RLIM_INFINITY || rl.rlim_cur >= want) return; rl.rlim_cur = want; setrlimit(RLIMIT_STACK, &rl); } }
 
 using namespace eg;
 using ref::Gram;
@@ -45,6 +50,7 @@ struct Config {
     int prec_base = 0;
     int rprec_max = 0;           // explicit rule precedence values 1..rprec_max on at most rprec_rules rules
     int rprec_rules = 1;
+    int sentences = 0;           // with a seed: also use every sentence of the seed grammar up to this many tokens (and its one-token deletions) as inputs
     bool neighbours = false;     // explore, with every seed grammar, all grammars that differ from it in exactly one symbol
     bool rich = false;           // additionally explore inputs over the terminals plus space, newline and a foreign byte (C01/C09)
     bool with_prec = false;      // enumerate precedence/associativity assignments for S/R grammars (always on for C05)
@@ -67,6 +73,7 @@ static bool deadline_hit = false;
 static const FrameBase* cur_frame = nullptr; static Gram cur_gram; static std::string cur_input; static const char* cur_phase = "";
 
 static std::atomic<unsigned long> g_heartbeat{0};
+static std::vector<std::string> g_extra_words;   // sentences of the current seed grammar used as additional inputs
 static double elapsed() { return std::chrono::duration<double>(std::chrono::steady_clock::now() - t0).count(); }
 
 static std::string spec_of(const Gram& g);
@@ -505,9 +512,9 @@ static void explore_strings(FrameBase& f, const Gram& g, const ref::LR1& L, Ctx&
     long n_acc = 0, n_rej = 0;
     std::string acc_sample, rej_sample;
     const ref::StrSpace& sp = (lr1_clean && !table_equal && cfg.has("C01")) ? cx.deep : cx.sp;   // a wrong table widens the search for a string-level witness
-    const int nwords = cfg.has_input ? 1 : sp.count;
+    const int nwords = cfg.has_input ? 1 : sp.count + (int)g_extra_words.size();
     for (int id = 0; id < nwords; ++id) {
-        const std::string& w = cfg.has_input ? cfg.one_input : sp.str[id];
+        const std::string& w = cfg.has_input ? cfg.one_input : id < sp.count ? sp.str[id] : g_extra_words[id - sp.count];
         cur_input = w; cur_phase = "strings"; ++g_heartbeat;
         std::vector<ref::Tok> toks = tokens_of(w);
         ref::Run ex = ref::drive(g, rt, toks, 400);
@@ -634,6 +641,29 @@ static void explore_strings(FrameBase& f, const Gram& g, const ref::LR1& L, Ctx&
         for (const char* p : {"C01", "C02", "C09", "C16", "C06"}) if (cfg.has(p)) add_sample(p, jw::Obj().s("grammar", g.text()).s("frame", f.name).s("accepted_input", acc_sample).s("rejected_input", rej_sample).i("accepted", n_acc).i("rejected", n_rej).str());
     }
     if (err_gram && n_acc > 0 && n_rej > 0) { ctr["nontrivial_err"]++; if (cfg.has("C08")) add_sample("C08", jw::Obj().s("grammar", g.text()).s("frame", f.name).i("accepted", n_acc).i("rejected", n_rej).str()); }
+}
+
+// ------------------------------------------------------------------------------------------------ sentences of a seed grammar (inputs beyond the length bound)
+static void gen_sentences(const Gram& g, int L, size_t cap) {
+    g_extra_words.clear();
+    std::set<std::vector<int>> seen; std::vector<std::vector<int>> q{{0}}; seen.insert(q[0]); std::set<std::string> out;
+    for (size_t qi = 0; qi < q.size() && qi < 400000 && out.size() < cap; ++qi) {
+        std::vector<int> f = q[qi];
+        size_t k = 0; while (k < f.size() && Gram::is_term(f[k])) ++k;
+        if (k == f.size()) { std::string w; for (int sy : f) w += char('a' + Gram::term_of(sy)); out.insert(w); continue; }
+        for (int r = 0; r < g.R; ++r) if (g.lhs[r] == f[k]) {
+            std::vector<int> nf(f.begin(), f.begin() + k); bool bad = false;
+            for (int j = 0; j < g.n[r]; ++j) { if (g.rhs[r][j] == ref::TERM + g.err()) bad = true; nf.push_back(g.rhs[r][j]); }
+            if (bad) continue;
+            nf.insert(nf.end(), f.begin() + k + 1, f.end());
+            int terms = 0; for (int sy : nf) if (Gram::is_term(sy)) ++terms;
+            if (terms > L || (int)nf.size() > L + 3) continue;
+            if (seen.insert(nf).second) q.push_back(nf);
+        }
+    }
+    std::set<std::string> all(out.begin(), out.end());
+    for (const std::string& w : out) for (size_t i = 0; i < w.size() && all.size() < 2 * cap; ++i) { std::string d = w; d.erase(i, 1); all.insert(d); }   // near misses
+    for (const std::string& w : all) if ((int)w.size() > cfg.maxlen) g_extra_words.push_back(w);   // shorter ones are in the exhaustive part
 }
 
 // ------------------------------------------------------------------------------------------------ inputs with whitespace and foreign bytes (C01/C09)
@@ -949,6 +979,7 @@ int main(int argc, char** argv) {
         else if (a == "--with-prec") cfg.with_prec = true;
         else if (a == "--rich") cfg.rich = true;
         else if (a == "--neighbours") cfg.neighbours = true;
+        else if (a == "--sentences") cfg.sentences = std::atoi(next().c_str());
         else if (a == "--max-per-frame") cfg.max_grammars_per_frame = std::atol(next().c_str());
         else if (a == "--one") { cfg.one = true; cfg.one_spec = next(); }
         else if (a == "--prec") cfg.one_prec = next();
@@ -978,14 +1009,18 @@ int main(int argc, char** argv) {
         parse_prec(prec, rprec, g);
         FrameBase* f = find_frame(g);
         if (!f) { std::fprintf(stderr, "no compiled frame for %s (NT=%d T=%d)\n", spec.c_str(), nt, t); ctr["seeds_without_frame"]++; return false; }
-        explore(*f, g); ctr["seeds"]++;
+        if (cfg.sentences > 0) { gen_sentences(g, cfg.sentences, 1500); ctr["seed_sentences"] += (long long)g_extra_words.size(); } else g_extra_words.clear();
+        static long work_idx = 0;   // seeds and their variants are dealt round-robin to the shards
+        auto mine = [&]() { return (work_idx++ % cfg.nshards) == cfg.shard; };
+        if (mine()) { explore(*f, g); ctr["seeds"]++; }
         if (cfg.neighbours) {
             for (int i = 0; i < g.R; ++i) {
-                for (int A = 0; A < g.NT; ++A) if (A != g.lhs[i]) { Gram h = g; h.lhs[i] = A; explore(*f, h); ctr["seed_neighbours"]++; }
+                for (int A = 0; A < g.NT; ++A) if (A != g.lhs[i]) { if (!mine()) continue; Gram h = g; h.lhs[i] = A; explore(*f, h); ctr["seed_neighbours"]++; }
                 for (int j = 0; j < g.n[i]; ++j) { if (g.rhs[i][j] == ref::TERM + g.err()) continue;
-                    for (int sy = 0; sy < g.NT + g.T; ++sy) { int code = sy < g.NT ? sy : ref::TERM + (sy - g.NT); if (code == g.rhs[i][j]) continue; Gram h = g; h.rhs[i][j] = code; explore(*f, h); ctr["seed_neighbours"]++; } }
+                    for (int sy = 0; sy < g.NT + g.T; ++sy) { int code = sy < g.NT ? sy : ref::TERM + (sy - g.NT); if (code == g.rhs[i][j]) continue; if (!mine()) continue; Gram h = g; h.rhs[i][j] = code; explore(*f, h); ctr["seed_neighbours"]++; } }
             }
         }
+        g_extra_words.clear();
         return true;
     };
     if (!cfg.dump.empty()) {
@@ -1016,10 +1051,9 @@ int main(int argc, char** argv) {
         return ok ? (viols.empty() ? 0 : 1) : 2;
     }
     if (!cfg.seeds.empty()) {
-        std::ifstream in(cfg.seeds); std::string line; long sidx = 0;
+        std::ifstream in(cfg.seeds); std::string line;
         while (std::getline(in, line)) {
             if (line.empty() || line[0] == '#') continue;
-            if ((sidx++ % cfg.nshards) != cfg.shard) continue;
             std::istringstream ls(line); int nt, t; std::string spec, prec, rprec; ls >> nt >> t >> spec >> prec >> rprec;
             if (prec == "-") prec.clear(); if (rprec == "-") rprec.clear();
             run_spec(spec, prec, rprec, nt, t);
